@@ -157,19 +157,33 @@ impl ISecureFramer for LengthPrefixedFramer {
 
   fn write_msg_multipart(&mut self, msgs: FrameBatch) -> Result<Bytes, ZmqError> {
     let plaintext = self.framer.frame_contiguous(&[msgs])?;
-    let ciphertext = self.cipher.encrypt(&plaintext)?;
-    let mut out = BytesMut::with_capacity(2 + ciphertext.len());
-    out.put_u16(ciphertext.len() as u16);
-    out.extend_from_slice(&ciphertext);
-    Ok(out.freeze())
+    self.seal_records(&plaintext)
   }
 
   fn write_msg_batch(&mut self, batch: &[FrameBatch]) -> Result<Bytes, ZmqError> {
     let plaintext = self.framer.frame_contiguous(batch)?;
-    let ciphertext = self.cipher.encrypt(&plaintext)?;
-    let mut out = BytesMut::with_capacity(2 + ciphertext.len());
-    out.put_u16(ciphertext.len() as u16);
-    out.extend_from_slice(&ciphertext);
+    self.seal_records(&plaintext)
+  }
+}
+
+/// Largest plaintext one record can carry: the record length is a 16-bit field and the AEAD tag of both
+/// mechanisms takes 16 bytes of it.
+const MAX_RECORD_PLAINTEXT: usize = u16::MAX as usize - 16;
+
+impl LengthPrefixedFramer {
+  /// Encrypts `plaintext` as one or more `[u16 length][ciphertext]` records. The receiving side appends the
+  /// decrypted records to one buffer and parses frames from it, so a batch larger than a record is simply
+  /// continued in the next one.
+  fn seal_records(&mut self, plaintext: &[u8]) -> Result<Bytes, ZmqError> {
+    let mut out = BytesMut::with_capacity(plaintext.len() + 18 * (plaintext.len() / MAX_RECORD_PLAINTEXT + 1));
+    for chunk in plaintext.chunks(MAX_RECORD_PLAINTEXT) {
+      let ciphertext = self.cipher.encrypt(chunk)?;
+      if ciphertext.len() > u16::MAX as usize {
+        return Err(ZmqError::InvalidMessage("Encrypted record exceeds the 16-bit length field".into()));
+      }
+      out.put_u16(ciphertext.len() as u16);
+      out.extend_from_slice(&ciphertext);
+    }
     Ok(out.freeze())
   }
 }
